@@ -242,6 +242,26 @@ func (rn *Runner) Run(h *History, faults map[int]string) *Trace {
 			msg = BuildMsg(MModReq, &seid, seq, ies...)
 		case "del":
 			msg = BuildMsg(MDelReq, &seid, seq)
+		case "dldr":
+			answer = op.Answer
+			answerUP = seid
+			pl := make([]byte, op.PayLen)
+			for k := range pl {
+				pl[k] = byte(i + k)
+			}
+			env.Srv.NotifySessReport(report.SessReport{SEID: seid, Reports: []report.Report{report.DLDReport{PDRID: op.PDR, Action: op.Act, BufPkt: pl}}})
+			st.Sent = true
+			if err := env.Barrier(); err != nil {
+				st.Err = "barrier: " + err.Error()
+			}
+			for _, s := range smfs {
+				s.Pump()
+			}
+			if st.Err == "" {
+				if err := env.Barrier(); err != nil {
+					st.Err = "barrier: " + err.Error()
+				}
+			}
 		case "urep":
 			answer = op.Answer
 			answerUP = seid
